@@ -62,6 +62,58 @@ func verifReadsWhileRacing(acc eds.AccessorStreamer, cells [][]libshare.Share, k
 	nd.Assert(acc.Close() == nil, "accessor-closes")
 }
 
+// Two readers share ONE cached, file-backed accessor (serving cache) and make
+// their first reads of the bottom half - the lazily opened parity file - at
+// the same time: both read the stored data, and once they have closed and the
+// block is removed no file remains open (a parity file opened twice would
+// leave a descriptor behind).
+//
+//verif:opts nopanic nodeadlock noreplay preempt=2 threads=10 maxwall=1500 cover=shared,both-read
+func VerifH_C08_ReadersSharingACachedAccessor() {
+	verifSetup()
+	const k, tag, h1 = 2, 0x21, uint64(7)
+	ctx := context.Background()
+	ns := libshare.MustNewV0Namespace([]byte("c08-ns"))
+	cells, sq := shwap.VerifModelSquare(k, 4, ns)
+	roots := verifTaggedRoots(tag, 2*k)
+	verifRootsOf[sq] = roots
+	hash := share.DataHash(verifHashOfTag(tag))
+	st, err := NewStore(&Parameters{RecentBlocksCacheSize: 0}, "/s")
+	nd.Assert(err == nil, "store-opens")
+	nd.Assert(st.PutODSQ4(ctx, roots, h1, sq) == nil, "put-succeeds")
+	cs, err := st.WithCache("serving", 1)
+	nd.Assert(err == nil, "serving-cache")
+
+	var wg sync.WaitGroup
+	read := 0
+	for r := 0; r < 2; r++ {
+		wg.Add(1)
+		go func() {
+			defer wg.Done()
+			acc, err := cs.GetByHeight(ctx, h1)
+			nd.Assert(err == nil, "stored-block-is-readable")
+			// the bottom row: served from the parity file, opened on first use
+			half, err := acc.AxisHalf(ctx, rsmt2d.Row, 2*k-1)
+			nd.Assert(err == nil && len(half.Shares) == k, "accessor-serves-the-complete-correct-block-until-closed")
+			off := 0
+			if half.IsParity {
+				off = k
+			}
+			nd.Assert(verifSame(half.Shares, cells[2*k-1][off:off+k]), "accessor-serves-the-complete-correct-block-until-closed")
+			nd.Assert(acc.Close() == nil, "accessor-closes")
+			read++
+		}()
+	}
+	wg.Wait()
+	nd.Cover("shared")
+	if read == 2 {
+		nd.Cover("both-read")
+	}
+	nd.Assert(st.RemoveODSQ4(ctx, h1, hash) == nil, "remove-succeeds")
+	nd.RunOthers()
+	nd.Assert(veriffs.OpenHandles() == 0, "every-opened-file-is-released")
+}
+
 // Under any interleaving: an accessor a reader obtains serves the complete,
 // correct block until the reader closes it (also while the block is removed,
 // re-put or evicted); every operation terminates; at quiescence the height is
